@@ -1,11 +1,11 @@
 \* C16 exhaustive (quick): every behaviour of up to MaxSteps actions over two
-\* valid bodies + the re-post + one invalid body, three header spellings, two
+\* valid bodies (bans absent / listed) + the re-post + one invalid body, three header spellings, two
 \* sessions, one bridge claim, snapshot and restart.
 SPECIFICATION Spec
 CONSTANTS
   Users = {"u1", "u2"}
   Chans = {"c1"}
-  Bodies = {"A", "C", "R", "Xtype"}
+  Bodies = {"A", "Ab", "Cn", "R", "Xtype"}
   HdrKinds = {"cur", "stale", "garbage"}
   Vias = {"d", "b1:a1"}
   Creds = {"o1"}
@@ -15,6 +15,7 @@ CONSTANTS
   MaxSnap = 1
   MaxRestart = 1
   MaxInject = 1
+  MaxBattery = 1
   MaxCfg = 2
   FixedF5 = FALSE
   RecordHist = FALSE
